@@ -46,12 +46,14 @@ class Score(Case):
     prop = 'C04'
     tol = 1e-6
 
-    def __init__(self, fn, trans, n, excludenull=False, nanpos=None, extra=None, variant=''):
+    def __init__(self, fn, trans, n, excludenull=False, nanpos=None, extra=None, variant='', members=1, pin=None):
         self.fn, self.trans, self.n, self.excl, self.nanpos, self.extra, self.variant = fn, trans, n, excludenull, nanpos, dict(extra or {}), variant
+        self.pin = pin      # dict(obs=[...], sim=[...]) with None for the entries that stay symbolic (a lower-dimensional slice of the input space)
+        self.members = members      # corr only: ensemble members per time step (the score uses the median / mean of the TRANSFORMED members)
         self.name = 'score:%s:%s:n%d%s%s%s%s' % (fn, trans, n, ':excludenull' if excludenull else '', ':nan@%s' % (nanpos,) if nanpos else '',
                                                ':' + ','.join('%s=%s' % kv for kv in sorted(self.extra.items())) if self.extra else '',
-                                               ':' + variant if variant else '')
-        self.params = dict(fn=fn, trans=trans, n=n, excludenull=excludenull, nanpos=nanpos, extra=self.extra, variant=variant)
+                                               ':' + variant if variant else '') + (':members=%d' % members if members > 1 else '') + (':slice' if pin else '')
+        self.params = dict(fn=fn, trans=trans, n=n, excludenull=excludenull, nanpos=nanpos, extra=self.extra, variant=variant, members=members, pin=pin)
         self.functions = ['hydrodiy.stat.metrics.%s' % fn]
 
     def modules(self):
@@ -69,9 +71,26 @@ class Score(Case):
                     assume(c)
                 assume(z3.And(v.e >= -50, v.e <= 50))
             obs.append(o)
-            sim.append(s)
+            if self.members > 1:
+                row = [s]
+                for k in range(1, self.members):
+                    v = SR(z3.Real('s%d_%d' % (i, k)))
+                    for c in domain(self.trans, P, C, v):
+                        assume(c)
+                    assume(z3.And(v.e >= -50, v.e <= 50))
+                    row.append(v)
+                sim.append(row)
+            else:
+                sim.append(s)
         if self.variant == 'perfect':
             sim = list(obs)
+        if self.pin:
+            for i, v in enumerate(self.pin.get('obs', [])):
+                if v is not None:
+                    obs[i] = float(v)
+            for i, v in enumerate(self.pin.get('sim', [])):
+                if v is not None:
+                    sim[i] = [float(x) for x in v] if isinstance(v, (list, tuple)) else float(v)
         return dict(P=P, C=C, obs=obs, sim=sim)
 
     def series(self, I):
@@ -86,8 +105,18 @@ class Score(Case):
         tr = make(self.trans, {})
         set_params(tr, I['P'], I['C'])
         obs, sim = self.series(I)
-        sym = any(isinstance(v, SR) for v in obs + sim)
+        flat = obs + [v for r in sim for v in (r if isinstance(r, list) else [r])]
+        sym = any(isinstance(v, SR) for v in flat)
         mk = (lambda xs: core.symarray(xs)) if sym else (lambda xs: np.array(xs, dtype=float))
+        if self.members > 1:
+            def mk2(rows):
+                if not sym:
+                    return np.array(rows, dtype=float)
+                a = np.empty((len(rows), self.members), dtype=object)
+                for i, r in enumerate(rows):
+                    for k, v in enumerate(r):
+                        a[i, k] = v
+                return a.view(core.SymArray)
         calls = []
         old = metrics.spearmanr
         if sym:
@@ -104,7 +133,9 @@ class Score(Case):
             metrics.spearmanr = sp
         try:
             f = getattr(metrics, self.fn)
-            if self.fn == 'corr':
+            if self.fn == 'corr' and self.members > 1:
+                val = f(mk(obs), mk2(sim), trans=tr, excludenull=self.excl, **self.extra)
+            elif self.fn == 'corr':
                 ens = mk(sim).reshape(-1, 1)
                 val = f(mk(obs), ens, trans=tr, excludenull=self.excl, **self.extra)
             else:
@@ -113,7 +144,12 @@ class Score(Case):
             metrics.spearmanr = old
         # transformed series for the reference (the real forward again: its correctness is C01's subject)
         to = list(np.asarray(tr.forward(mk(obs)), dtype=object).flat)
-        ts = list(np.asarray(tr.forward(mk(sim)), dtype=object).flat)
+        if self.members > 1:
+            # the ensemble statistic is taken over the TRANSFORMED members (2 members: median = mean)
+            tens = np.asarray(tr.forward(mk2(sim)), dtype=object)
+            ts = [sum(list(tens[i])[1:], tens[i][0]) / self.members for i in range(len(sim))]
+        else:
+            ts = list(np.asarray(tr.forward(mk(sim)), dtype=object).flat)
         return dict(val=unwrap(val), to=to, ts=ts, calls=calls)
 
     def spec(self, I, O, err):
@@ -238,7 +274,7 @@ class Binary(Case):
             res.append(('%s=definition' % k, (not is_nan(s[k])) and close(s[k], d, self.tol)))
         den = (TP + FP) * (TP + FN) * (TN + FP) * (TN + FN)
         mcc = s['MCC']
-        res.append(('MCC=definition', (not is_nan(mcc)) and (close(mcc * mcc * den, (TP * TN - FP * FN) * (TP * TN - FP * FN), 1e-5) if not isinstance(mcc, SR)
+        res.append(('MCC=definition', (not is_nan(mcc)) and ((close(mcc * mcc * den, (TP * TN - FP * FN) * (TP * TN - FP * FN), 1e-5) and ((mcc >= 0) == (TP * TN >= FP * FN) or abs(mcc) < 1e-9)) if not isinstance(mcc, SR)
                                                               else (mcc * mcc * den == (TP * TN - FP * FN) * (TP * TN - FP * FN)) & ((mcc >= 0) == (TP * TN >= FP * FN)))))
         lor = s['LOR']
         if is_nan(lor):
@@ -247,6 +283,10 @@ class Binary(Case):
             e = lor.exp() if isinstance(lor, SR) else math.exp(lor)
             res.append(('LOR=log(theta)', close(e, theta, 1e-5 if not isinstance(lor, SR) else 0)))
         return res
+
+
+# a 2-dimensional slice of the 3 x 2 ensemble (two time steps concrete): models are found and refuted quickly also under the LOG abstraction
+SLICE = dict(obs=[1.0, 2.0, 4.0], sim=[[1.0, 3.0], [2.0, 2.5], None])
 
 
 def cases(tier):
@@ -260,7 +300,8 @@ def cases(tier):
             if n <= 3:
                 out += [Score('kge', tr, n)]
         out += [Score('bias', tr, 2, extra=dict(type='log')), Score('corr', tr, 2, extra=dict(type='Spearman')),
-                Score('corr', tr, 2, extra=dict(stat='mean')),
+                Score('corr', tr, 2, extra=dict(stat='mean')), Score('corr', tr, 3, members=2), Score('corr', tr, 3, extra=dict(stat='mean'), members=2),
+                Score('corr', tr, 3, members=2, pin=SLICE), Score('corr', tr, 3, extra=dict(stat='mean'), members=2, pin=SLICE),
                 Score('nse', tr, 3, excludenull=True, nanpos=('obs', 1)), Score('nse', tr, 3, excludenull=True, nanpos=('sim', 2)),
                 Score('bias', tr, 3, excludenull=True, nanpos=('sim', 2)), Score('bias', tr, 3, excludenull=True, nanpos=('obs', 0)),
                 Score('corr', tr, 3, excludenull=True, nanpos=('sim', 1)),
